@@ -396,8 +396,27 @@ def _sumsq(I, items):
     return s
 
 
+def _float_dtype_only(name, k):
+    d = k.get('dtype')
+    if d is not None and not (getattr(d, 'name', None) in ('float', 'np.float64') or d is float):
+        raise OutOfSubset('%s(..., dtype=%r) is not modelled' % (name, d))
+
+
+def np_isclose(I, a, k):
+    """scalar np.isclose(a, b, rtol=1e-5, atol=1e-8): |a - b| <= atol + rtol * |b| (mode R)"""
+    _no_kwargs('np.isclose', k, ('rtol', 'atol'))
+    if not (ops.is_number(a[0]) and ops.is_number(a[1])):
+        raise OutOfSubset('np.isclose on arrays')
+    x, y = ops.to_real(I, elem(I, a[0])), ops.to_real(I, elem(I, a[1]))
+    rtol = ops.to_real(I, a[2] if len(a) > 2 else k.get('rtol', 1e-5))
+    atol = ops.to_real(I, a[3] if len(a) > 3 else k.get('atol', 1e-8))
+    ab = lambda t: z3.If(t >= 0, t, -t)      # noqa: E731
+    return ops.mk_bool(ab(x - y) <= atol + rtol * ab(y))
+
+
 def np_array(I, a, k):
-    _no_kwargs('np.array', k)
+    _no_kwargs('np.array', k, ('dtype',))
+    _float_dtype_only('np.array', k)
     if len(a) != 1:
         raise OutOfSubset('np.array with %d arguments' % len(a))
     return as_array(I, a[0], copy=True)
@@ -603,6 +622,7 @@ def getattr_(I, o, name):
 def install(EXTERNALS, _fn):
     EXTERNALS['numpy.array'] = _fn('np.array', np_array)
     EXTERNALS['numpy.asarray'] = _fn('np.asarray', np_asarray)
+    EXTERNALS['numpy.isclose'] = _fn('np.isclose', np_isclose)
     EXTERNALS['numpy.zeros'] = _fn('np.zeros', np_full(0.0))
     EXTERNALS['numpy.ones'] = _fn('np.ones', np_full(1.0))
     EXTERNALS['numpy.identity'] = _fn('np.identity', np_identity)
